@@ -23,6 +23,8 @@ CONSTANTS MaxItems,    \* top-level items
           MaxSub,      \* items in a block
           MaxBlocks,   \* blocks per object
           MaxDepth,    \* nesting depth of blocks (1 = blocks at top level only)
+          MaxLeaves,   \* rule items (anything but blocks) per object, at all depths together
+          Lean,        \* TRUE: rule items never state their sequent (keeps slices with several blocks small)
           Budget,      \* anomalies per object
           IdOffs,      \* identifier = position + offset
           Rules,       \* rule names used by the generator
@@ -60,6 +62,7 @@ TW(t, x) == [th |-> t, w |-> x]
 ThOpts(rl, nat) ==
   CASE rl = "" -> {TW(NoneS, 0), TW(Sq({}, atB), 1)}
     [] rl = "sorry" -> {TW(Sq({}, atB), 0), TW(NoneS, 1)}
+    [] Lean -> {TW(NoneS, 0)}
     [] OTHER -> IF IsNone(nat) THEN {TW(NoneS, 0), TW(Sq({}, atB), 1)}
                 ELSE {TW(NoneS, 0), TW(nat, 0)} \cup { TW(v, 1) : v \in Variants(nat) \ {nat} }
 AW(a, x) == [a |-> a, w |-> x]
@@ -84,13 +87,18 @@ OwnCites(path) == IF path = <<>> THEN { <<j>> : j \in (-1)..MaxItems }
 LevelCites(path) == UNION { { Append(SubSeq(path, 1, m - 1), j) : j \in (-1)..(path[m] + 1) } : m \in 1..Len(path) }
 \*   items INSIDE a closed block that is an earlier sibling of pos or of one of its ancestors
 ClosedInner(pos) == { q \in AllPos(prf) : \E m \in 1..(Len(q) - 1) : Visible(pos, SubSeq(q, 1, m)) }
-CitePool(path, pos) == OwnCites(path) \cup LevelCites(path) \cup ClosedInner(pos)
+\* Lean slices concentrate on citations into closed blocks: the other anomalous citations are left to the other slices
+CitePool(path, pos) == IF Lean THEN { c \in OwnCites(path) \cup LevelCites(path) : CW(pos, c) = 0 } \cup ClosedInner(pos)
+                       ELSE OwnCites(path) \cup LevelCites(path) \cup ClosedInner(pos)
 RECURSIVE AppendAt(_, _, _, _)
 AppendAt(items, path, k, it) == IF k > Len(path) THEN Append(items, it)
                                 ELSE [items EXCEPT ![path[k] + 1].sub = AppendAt(@, path, k + 1, it)]
 RECURSIVE CloseAt(_, _, _, _, _)
 CloseAt(items, path, k, th, nat) == IF k = Len(path) THEN [items EXCEPT ![path[k] + 1].th = th, ![path[k] + 1].nat = nat]
                                     ELSE [items EXCEPT ![path[k] + 1].sub = CloseAt(@, path, k + 1, th, nat)]
+RECURSIVE CountLeaves(_)
+CountLeaves(items) == IF Len(items) = 0 THEN 0
+                      ELSE (IF items[1].rule = "subproof" THEN CountLeaves(items[1].sub) ELSE 1) + CountLeaves(Tail(items))
 RECURSIVE CountBlocks(_)
 CountBlocks(items) == IF Len(items) = 0 THEN 0
                       ELSE (IF items[1].rule = "subproof" THEN 1 + CountBlocks(items[1].sub) ELSE 0) + CountBlocks(Tail(items))
@@ -120,7 +128,7 @@ Init == prf = <<>> /\ openp = <<>> /\ w = 0 /\ rn = RefCheck(<<>>, TRUE) /\ rg =
 
 \* a rule item (anything but a block) at the end of the innermost open block, or of the top level
 AddItem == LET path == openp  i == Len(ItemsAt(prf, path))  pos == Append(path, i) IN
-           /\ i < Cap(path)
+           /\ i < Cap(path) /\ CountLeaves(prf) < MaxLeaves
            /\ \E rl \in Rules \ {"subproof"} : \E off \in OffsFor(Budget - w) : \E q \in IdPrefixes(path) : \E a \in Args(rl) :
               LET w1 == w + (IF off = 0 THEN 0 ELSE 1) + a.w IN
               /\ w1 <= Budget
